@@ -50,10 +50,14 @@ def _vcdiv(a, b):
         b = to_q(b)
     if isinstance(a, _EXACT) and isinstance(b, _EXACT):
         return Fraction(a) / Fraction(b)
-    if isinstance(a, _np.ndarray) and a.dtype != object:
+    if isinstance(a, _np.ndarray):
         a = exact_array(a)
-    if isinstance(b, _np.ndarray) and b.dtype != object:
+    if isinstance(b, _np.ndarray):
         b = exact_array(b)
+    if isinstance(a, int) and not isinstance(a, bool):
+        a = Fraction(a)
+    if isinstance(b, int) and not isinstance(b, bool):
+        b = Fraction(b)
     return norm(a / b) if not isinstance(a, _np.ndarray) and not isinstance(b, _np.ndarray) else a / b
 
 
@@ -98,13 +102,16 @@ def exact_array(a):
         out = _np.empty(a.shape, dtype=object)
         for idx in _np.ndindex(a.shape):
             v = a[idx]
+            if isinstance(v, int) and not isinstance(v, bool):
+                v = Fraction(v)          # array elements are never Python ints: numpy's elementwise int / int would be inexact
             out[idx] = norm(v) if not isinstance(v, (list, tuple, _np.ndarray)) else v
         return out
     if a.dtype == bool:
         return a
     out = _np.empty(a.shape, dtype=object)
     for idx in _np.ndindex(a.shape):
-        out[idx] = norm(a[idx].item())
+        v = norm(a[idx].item())
+        out[idx] = Fraction(v) if isinstance(v, int) and not isinstance(v, bool) else v
     return out
 
 
